@@ -5954,7 +5954,8 @@ GR2bmapped(int32 riid, int *tobe_mapped, int *name_generated)
             if (ri_ptr->img_dim.ncomps == 1) {
                 /* Make sure no specialness or only with RLE compression */
                 comp_coder_t comp_type = COMP_CODE_NONE;
-                GRgetcomptype(riid, &comp_type);
+                if (GRgetcomptype(riid, &comp_type) == FAIL)
+                    HGOTO_ERROR(DFE_INTERNAL, FAIL);
                 if (comp_type == COMP_CODE_RLE || comp_type == COMP_CODE_NONE) {
                     special_type = GRIisspecial_type(file_id, img_tag, img_ref);
                     /* In some cases, special_type = 0 for old image with RLE,
